@@ -16,6 +16,11 @@ pub enum Strategy {
     Pct(u8),
     /// lowest runnable task id first (deterministic, nearly sequential)
     Lowest,
+    /// a stalled task: sticky-random, but from a seeded choice point on one task (seeded which) is
+    /// not given the processor for a seeded number of choice points (200 / 2000 / 20000) as long
+    /// as anything else can run - a worker descheduled in the middle of its cluster while the
+    /// others finish dozens of theirs
+    Starve,
 }
 
 impl Strategy {
@@ -25,6 +30,7 @@ impl Strategy {
             Strategy::Sticky => "sticky".into(),
             Strategy::Pct(d) => format!("pct{d}"),
             Strategy::Lowest => "lowest".into(),
+            Strategy::Starve => "starve".into(),
         }
     }
 }
@@ -54,6 +60,10 @@ pub struct SimScheduler {
     shared: Arc<Mutex<SchedShared>>,
     prio: HashMap<usize, u64>,
     change_points: Vec<u64>,
+    /// (Starve) choice point at which the victim is picked, for how many choice points, and who
+    starve_at: u64,
+    starve_len: u64,
+    victim: Option<usize>,
 }
 
 impl SimScheduler {
@@ -65,7 +75,15 @@ impl SimScheduler {
                 change_points.push(rng.below(3000));
             }
         }
+        let (starve_at, starve_len) = if strategy == Strategy::Starve {
+            (rng.below(400), *rng.pick(&[200u64, 2000, 20000]))
+        } else {
+            (0, 0)
+        };
         Self {
+            starve_at,
+            starve_len,
+            victim: None,
             rng,
             strategy,
             replay: None,
@@ -79,6 +97,9 @@ impl SimScheduler {
 
     pub fn replay(trace: Vec<u16>, shared: Arc<Mutex<SchedShared>>) -> Self {
         Self {
+            starve_at: 0,
+            starve_len: 0,
+            victim: None,
             rng: Rng::new(0),
             strategy: Strategy::Lowest,
             replay: Some(trace),
@@ -150,6 +171,20 @@ impl Scheduler for SimScheduler {
                     Some(c) if ids.contains(&c) && self.rng.below(4) != 0 => c,
                     _ => ids[self.rng.usize_below(ids.len())],
                 },
+                Strategy::Starve => {
+                    let step = sh.choice_points;
+                    if step >= self.starve_at && self.victim.is_none() {
+                        self.victim = Some(ids[self.rng.usize_below(ids.len())]);
+                    }
+                    let cands: Vec<usize> = match self.victim {
+                        Some(v) if step < self.starve_at + self.starve_len && ids.iter().any(|i| *i != v) => ids.iter().copied().filter(|i| *i != v).collect(),
+                        _ => ids.clone(),
+                    };
+                    match cur {
+                        Some(c) if cands.contains(&c) && self.rng.below(4) != 0 => c,
+                        _ => cands[self.rng.usize_below(cands.len())],
+                    }
+                }
                 Strategy::Pct(_) => {
                     for id in &ids {
                         if !self.prio.contains_key(id) {
